@@ -400,17 +400,27 @@ func (s *session) handshake() {
 	synctest.Wait()
 }
 
+// units is a difficulty (or a sum of difficulties) in units of 2^-16; -1 when it is not a whole
+// number of units (the generator only uses dyadic difficulties, so every sum is exact).
+func units(x float64) int64 {
+	u := x * 65536
+	if u != float64(int64(u)) {
+		return -1
+	}
+	return int64(u)
+}
+
 // stats writes the observable ledgers.
 func (s *session) stats(tr *vh.Transcript) {
 	st := s.proxy.source.GetStats().GetStatsMap()
 	tr.Out("stats src acc=%d rej=%d acc_theyrej=%d rej_theyacc=%d", st["we_accepted_shares"], st["we_rejected_shares"], st["we_accepted_they_rejected"], st["we_rejected_they_accepted"])
-	tr.Out("stats miner work=%d shares=%d", int64(s.proxy.hashrate.GetTotalWork()), s.proxy.hashrate.GetTotalShares())
+	tr.Out("stats miner work=%d shares=%d", units(s.proxy.hashrate.GetTotalWork()), s.proxy.hashrate.GetTotalShares())
 	w, _ := s.gh.GetTotalWork(s.cfg.minerUser)
-	tr.Out("stats worker work=%d", int64(w))
+	tr.Out("stats worker work=%d", units(w))
 	var ds []string
 	s.proxy.destMap.Range(func(d *ConnDest) bool {
 		m := d.GetStats().GetStatsMap()
-		ds = append(ds, fmt.Sprintf("stats dest %s aa=%d ar=%d ra=%d diff=%d", d.destUrl.Hostname(), m["we_accepted_they_accepted"], m["we_accepted_they_rejected"], m["we_rejected_they_accepted"], int64(d.GetDiff())))
+		ds = append(ds, fmt.Sprintf("stats dest %s aa=%d ar=%d ra=%d diff=%d", d.destUrl.Hostname(), m["we_accepted_they_accepted"], m["we_accepted_they_rejected"], m["we_rejected_they_accepted"], units(d.GetDiff())))
 		return true
 	})
 	sort.Strings(ds)
